@@ -55,3 +55,12 @@ Multiphase_spec.vos Multiphase_spec.vok Multiphase_spec.required_vos: Multiphase
 NumpyDtype.vo NumpyDtype.glob NumpyDtype.v.beautified NumpyDtype.required_vo: NumpyDtype.v 
 NumpyDtype.vio: NumpyDtype.v 
 NumpyDtype.vos NumpyDtype.vok NumpyDtype.required_vos: NumpyDtype.v 
+Plot.vo Plot.glob Plot.v.beautified Plot.required_vo: Plot.v NumSig.vo PyPrelude.vo
+Plot.vio: Plot.v NumSig.vio PyPrelude.vio
+Plot.vos Plot.vok Plot.required_vos: Plot.v NumSig.vos PyPrelude.vos
+FitPressure.vo FitPressure.glob FitPressure.v.beautified FitPressure.required_vo: FitPressure.v NumSig.vo Tridiag.vo Interp.vo Reservoir.vo
+FitPressure.vio: FitPressure.v NumSig.vio Tridiag.vio Interp.vio Reservoir.vio
+FitPressure.vos FitPressure.vok FitPressure.required_vos: FitPressure.v NumSig.vos Tridiag.vos Interp.vos Reservoir.vos
+ConvThms.vo ConvThms.glob ConvThms.v.beautified ConvThms.required_vo: ConvThms.v NumSig.vo MinPrinciple.vo Tridiag.vo Interp.vo Reservoir.vo ReservoirThms.vo
+ConvThms.vio: ConvThms.v NumSig.vio MinPrinciple.vio Tridiag.vio Interp.vio Reservoir.vio ReservoirThms.vio
+ConvThms.vos ConvThms.vok ConvThms.required_vos: ConvThms.v NumSig.vos MinPrinciple.vos Tridiag.vos Interp.vos Reservoir.vos ReservoirThms.vos
